@@ -46,7 +46,12 @@ pub fn apply_ops(gd: &GenDict, ops: &[Op]) -> (Outcome<vibrato::Dictionary>, Vec
         };
         let op = op.clone();
         cur = match op {
-            Op::Map(l, r) => guarded(move || d.map_connection_ids_from_iter(l, r)),
+            Op::Map(l, r) => {
+                // the ids are handed over as a Vec, or as lazy iterators whose length is not known in advance
+                // (as when they are streamed from the lines of a mapping file)
+                if (l.len() + r.len()) % 2 == 0 { guarded(move || d.map_connection_ids_from_iter(l, r)) }
+                else { guarded(move || d.map_connection_ids_from_iter(l.into_iter().filter(|_| true), r.into_iter().filter(|_| true))) }
+            }
             Op::User(Some(rows)) => {
                 let csv = GenDict::rows_csv(&rows);
                 guarded(move || d.reset_user_lexicon_from_reader(Some(csv.as_bytes())))
